@@ -170,6 +170,24 @@ def cargo_build(profile="release", features=None):
     return rc == 0, out + err, os.path.join(tdir, sub, "rosu_verif")
 
 
+def cargo_build_tsan(features=None):
+    """Nightly build of the harness (and std, -Zbuild-std) with ThreadSanitizer. Returns
+    (ok, log, binary); ok=False when the nightly toolchain / rust-src is not usable offline."""
+    tdir = os.path.join(BUILD, "target-tsan")
+    cmd = ["cargo", "+nightly", "build", "--offline", "--release", "-Zbuild-std", "--target", "x86_64-unknown-linux-gnu",
+           "--target-dir", tdir]
+    if features:
+        cmd += ["--features", ",".join(features)]
+    env = dict(ENV)
+    env["RUSTFLAGS"] = "--cfg rosu_pp_verif -Aunexpected_cfgs -Zsanitizer=thread"
+    with Lock("cargo-target-tsan"):
+        try:
+            rc, out, err = sh(cmd, cwd=HARNESS, timeout=3000, env=env)
+        except Exception as e:
+            return False, f"{e}", ""
+    return rc == 0, out + err, os.path.join(tdir, "x86_64-unknown-linux-gnu", "release", "rosu_verif")
+
+
 def run_driver(cases_path, out_path):
     with open(cases_path) as fin, open(out_path, "w") as fout:
         p = subprocess.run([DRIVER], stdin=fin, stdout=fout, stderr=subprocess.PIPE, timeout=3000)
